@@ -58,8 +58,10 @@ def make_ctx(ppi, rel, font, vb, in_per_cm=ls.EXACT_IN_PER_CM):
     viewbox = None
     if vb is not None:
         viewbox = tuple(F(x) for x in vb.split())
-    return ls.Ctx(ppi=ppi, rel=r, font_size=(16 if font else None), font_height=(8 if font else None), viewbox=viewbox,
-                  in_per_cm=in_per_cm)
+    # font: False (no metrics), True / "len" (both), "size-only" / "height-only" (one of the two: the other unit stays
+    # symbolic - an x-height is not guessed from the font size, nor the reverse)
+    return ls.Ctx(ppi=ppi, rel=r, font_size=(16 if font and font != "height-only" else None),
+                  font_height=(8 if font and font != "size-only" else None), viewbox=viewbox, in_per_cm=in_per_cm)
 
 
 class Value(SubCheck):
@@ -71,7 +73,7 @@ class Value(SubCheck):
         if tier == "thorough":
             amounts = AMOUNTS + AMOUNTS_T
             ppis = [96, 72, 300, None, 1, 25.4, 254, 1200, 90.5]
-        self.p = Product(amounts, ls.UNITS, ppis, RELS, [False, True, "len"],
+        self.p = Product(amounts, ls.UNITS, ppis, RELS, [False, True, "len", "size-only", "height-only"],
                          [None, "0 0 200 100", "0 0 100 200"],
                          # how the viewport is handed over: its text, a Viewbox object, a dict of attributes, or a
                          # Viewbox object that had another size (and was used at that size) before
@@ -107,6 +109,10 @@ class Value(SubCheck):
             # the font metrics given as Length objects of other units (1pc = 16px, 6pt = 8px)
             kw["font_size"] = svg.Length("1pc")
             kw["font_height"] = svg.Length("6pt")
+        elif case["font"] == "size-only":
+            kw["font_size"] = 16
+        elif case["font"] == "height-only":
+            kw["font_height"] = 8
         elif case["font"]:
             kw["font_size"] = 16
             kw["font_height"] = 8
